@@ -110,6 +110,9 @@ def processLine (st : CSt) (line : String) : IO CSt := do
     let name := (toks opS).headD "?"
     let op := ((toks opS).drop 1).map nat!
     let mut st := { st with stats := st.stats.bump "ops" |>.bump s!"op_{name}" }
+    if name = "memset" || name = "memcopy" then
+      let (mm, pf) ← muLine st.caseId opS obsS name op
+      return { st with stats := (st.stats.bump "mismatch" mm |>.bump "propfail" pf |>.bump "memutil_ops") }
     let (r, m) := modelStep st.r name op
     st := { st with r := r }
     if m.trimAscii.toString ≠ obsS.trimAscii.toString then
